@@ -1264,7 +1264,7 @@ func init() {
 	register(&checkDef{
 		id:    "C04",
 		level: "exploration",
-		rule: "full product token{signer x issuer x audience shape x expiry x email_verified x claim typing} x configuration{key source x allow-unverified-email x skip-issuer-verification x audience configuration x claim names} x entry path{login callback, token refresh, bearer header via provider loader (3 header forms), bearer header with an extra issuer} through the real proxy and the fake identity provider; each flow is compared clause by clause with a reference model of the statement: accepted only if every clause holds, identity at the upstream and in /oauth2/userinfo equal to the token's configured claims, profile endpoint only for claims the token lacks; non-trivial = token that satisfies every clause or fails exactly one",
+		rule:  "full product token{signer x issuer x audience shape x expiry x email_verified x claim typing} x configuration{key source x allow-unverified-email x skip-issuer-verification x audience configuration x claim names} x entry path{login callback, token refresh, bearer header via provider loader (3 header forms), bearer header with an extra issuer} through the real proxy and the fake identity provider; each flow is compared clause by clause with a reference model of the statement: accepted only if every clause holds, identity at the upstream and in /oauth2/userinfo equal to the token's configured claims, profile endpoint only for claims the token lacks; non-trivial = token that satisfies every clause or fails exactly one",
 		assumptions: []string{
 			"open details are counted as ambiguous and cannot fail: token without exp; kid that names no published key; email_verified given as the string \"false\"; email_verified=false with a non-standard e-mail claim or on an extra issuer with allow-unverified-email; issuer absent while issuer verification is skipped; groups claim that is not a list of strings; bearer token without e-mail claim; token carried in a Basic header; with an extra issuer configured, a token whose audience is the other issuer's audience",
 			"the claim that is not the configured audience claim always carries the opposite verdict (decoy)",
